@@ -34,6 +34,12 @@ fn main() {
       (format!("did:iota:{TAG}"), Some(format!("did:iota:{TAG}"))),
       (format!("did:iota:iota:{TAG}"), Some(format!("did:iota:{TAG}"))),
       (format!("did:iota:smr:{TAG}"), Some(format!("did:iota:smr:{TAG}"))),
+      (format!("did:iota:iota1:{TAG}"), Some(format!("did:iota:iota1:{TAG}"))),
+      (format!("did:iota:iotax:{TAG}"), Some(format!("did:iota:iotax:{TAG}"))),
+      (format!("did:iota:io:{TAG}"), Some(format!("did:iota:io:{TAG}"))),
+      (format!("did:iota:{TAG}#"), None),
+      (format!("did:iota:smr:{TAG}#"), None),
+      (format!("did:iota:{TAG}?"), None),
       (format!("DID:IOTA:SMR:{}", TAG.to_uppercase().replace("0X", "0x")), Some(format!("did:iota:smr:{TAG}"))),
       (format!("did:iota:iota:iota:{TAG}"), None),
       (format!("did:iota:iota:smr:{TAG}"), None),
